@@ -111,6 +111,15 @@ class vf_tab:
         return t
 
 
+@define_app
+def vf_consume(seqs: UnalignedSeqsType, wanted: list) -> UnalignedSeqsType:
+    """an app made from a function that uses up the list it is given: every record must still see the list as constructed"""
+    names = []
+    while wanted:
+        names.append(wanted.pop())
+    return seqs.take_seqs(sorted(names))
+
+
 # ----------------------------------------------------------------------------- virtual executor
 class _Future:
     def __init__(self, payload, index):
@@ -495,6 +504,44 @@ def check_falsy(acc):
     acc.sample({"falsy_results": True, "writer": "write_db", "inputs": ["a", "ba", "c"]}, "falsy")
 
 
+def check_function_app(acc):
+    """an app built from a function, constructed with a mutable argument the function modifies: records do not see each
+    other's leftovers (serial and parallel, argument given positionally or by keyword)"""
+    from cogent3 import get_app
+    from cogent3.app.sqlite_data_store import DataStoreSqlite
+
+    base = tempfile.gettempdir()
+    ids = ["a", "ba", "c"]
+    for how in ("positional", "keyword"):
+        for serial in (True, False):
+            work = tempfile.mkdtemp(prefix="c14g-", dir=base)
+            case = {"function_app": True, "argument": how, "serial": serial, "ids": ids}
+            acc.case(case)
+            try:
+                members = make_inputs(work, ids)
+                out = DataStoreSqlite(os.path.join(work, "out.sqlitedb"), mode="w")
+                step = vf_consume(["s1", "s2"]) if how == "positional" else vf_consume(wanted=["s1", "s2"])
+                app = get_app("load_unaligned", format="fasta", moltype="dna") + step + get_app("write_seqs", data_store=out, format="fasta")
+                if serial:
+                    app.apply_to(members, logger=False, show_progress=False)
+                else:
+                    with patched_pool((1, 2, 0)):
+                        app.apply_to(members, parallel=True, par_kw={"max_workers": 2}, logger=False, show_progress=False)
+                done = sorted(str(m.unique_id) for m in out.completed)
+                nc = sorted(str(m.unique_id) for m in out.not_completed)
+                contents = {str(m.unique_id): m.read().count(">") for m in out.completed}
+                acc.outcome(("function app", how, serial, len(done)))
+                if done != sorted(ids) or nc or any(v != 2 for v in contents.values()):
+                    acc.fail(f"app made from a function: a record saw the mutable argument as an earlier record left it [argument given {how}]", case,
+                             {"completed": done, "not_completed": nc, "sequences per record": contents})
+                out.close()
+            except Exception as e:  # noqa: BLE001
+                acc.fail(f"app made from a function raised {type(e).__name__}", case, {"error": str(e)[:200]})
+            finally:
+                shutil.rmtree(work, ignore_errors=True)
+    acc.sample({"function_app": True}, "funcapp")
+
+
 def check_passthrough(acc):
     """a NotCompleted fed to any later step comes out unchanged"""
     base = tempfile.gettempdir()
@@ -576,7 +623,7 @@ def validate_real_pool(spec, acc):
 
 def shards(tier, seed):
     b = bounds(tier)
-    out = [{"part": "passthrough"}, {"part": "falsy"}]
+    out = [{"part": "passthrough"}, {"part": "falsy"}, {"part": "funcapp"}]
     if tier == "thorough":
         for store in b["stores"]:
             out.append({"part": "realpool", "ids": ["ba", "a", "c"], "vector": ["raise", "ok", "ok"], "store": store,
@@ -596,7 +643,9 @@ def shards(tier, seed):
 
 
 def run_shard(spec, acc):
-    if spec["part"] == "falsy":
+    if spec["part"] == "funcapp":
+        check_function_app(acc)
+    elif spec["part"] == "falsy":
         check_falsy(acc)
     elif spec["part"] == "passthrough":
         check_passthrough(acc)
@@ -634,6 +683,10 @@ def replay(case):
         acc = Acc()
         validate_real_pool({"ids": case["ids"], "vector": case["vector"], "store": case["store"], "delays": [case["delays"]]}, acc)
         return [(s, r["cases"][0]["detail"]) for s, r in acc.failures.items()]
+    if "function_app" in case:
+        acc = Acc()
+        check_function_app(acc)
+        return [(s, r["cases"][0]["detail"]) for s, r in acc.failures.items()]
     if "falsy" in case:
         acc = Acc()
         check_falsy(acc)
@@ -642,6 +695,10 @@ def replay(case):
         acc = Acc()
         check_passthrough(acc)
         return [(s, r["cases"][0]["detail"]) for s, r in acc.failures.items()]
+    if "vectors" not in case:
+        # the reference run of one input on its own
+        return [("reference run of the app on one input alone produced no completed record", {})
+                for i in case["ids"] if single_reference(i, base) is None]
     ids, vectors, store = case["ids"], case["vectors"], case["store"]
     refs = {i: single_reference(i, base) for i in ids}
     sched = tuple(case["schedule"]) if case.get("schedule") is not None else None  # ("chunksize", n) survives as a tuple
